@@ -31,7 +31,8 @@ CONFIG = {
             "net/http header map access (header[key]) is modelled as the list of header lines",
         ],
         "assumptions": ["strings are compared bytewise; the harness feeds header lines directly into http.Header (no wire parsing)"],
-        "partial": ["T6 (API-level 406) is proved in C08 (`not_acceptable_is_406`), not here"],
+        "partial": ["T6 (API-level 406) and the offer list the API hands to the negotiation (produces without the default, the default last; no memoised format trusted by Respond) are modelled and proved in C08 (`not_acceptable_is_406`, `respond_offers`…): the C07 check runs C08's check as a sub-check (\"also\") so that a change of that flow is reported under C07 too"],
+        "also": ["C08"],
     },
 }
 
@@ -581,12 +582,12 @@ CONFIG['C09'] = {'assumptions': ['request bodies announce their length (ContentL
                  'failing parameter, 405 cases have a single other method, and the two schemes of the AND alternative carry the same credential '
                  '(their order is decided by a Go map when the router is built)',
                  'Authorize/BindAndValidate receive the route the way the callers in the library obtain it: RouteInfo on the same request value'],
- 'exhaustive': 'every sequence of the six accessors up to length 3 (thorough: 4), threaded, on 3 (thorough: 7) fixed requests is run on every check; '
+ 'exhaustive': 'every sequence of the six accessors up to length 3 (thorough: 4), threaded, on 5 (thorough: 11) fixed requests is run on every check; '
                'the rest of the space is sampled',
  'go_entry': 'middleware.Context.RouteInfo / ContentType / ResponseFormat / Authorize / BindAndValidate / ResetAuth, MatchedRouteFrom, '
              'SecurityPrincipalFrom, SecurityScopesFrom (stream A); the middleware.Serve handler under concurrency (stream R)',
  'model_fn': 'stepOp / runProg (routeInfo, contentType, responseFormat, authorize [rasAuth, raAuth], bindAndValidate [validateRequest], resetAuth), '
-             'runSched',
+             'runSched; Spec: specOk = keeps (promises) + derivedAlone (fresh: refAlts/refAuthorize/refBind)',
  'partial': ['data-race freedom and memory visibility are NOT proved (runtime facts): FullStatement keeps them as the parameters DataRaceFree and '
              'StepModelFaithful; full_statement_partial proves the memoisation part for all programs and the interleaving part on the step model. '
              'Support: stream R in the -race build (tier race) with per-request correlation tokens',
@@ -596,21 +597,28 @@ CONFIG['C09'] = {'assumptions': ['request bodies announce their length (ContentL
  'race_n': 100,
  'race_thorough_factor': 10,
  'rule': 'stream A: one real request against one real middleware.Context (NewRoutableContext over the default router wrapped in a lookup counter; '
-         'API with 5 operations: unsecured, key OR (basic AND tok), anonymous OR key, key with two scopes; with and without an authorizer), '
+         'API with 6 operations: unsecured, key OR (basic AND tok), anonymous OR key, key OR anonymous (authentication optional, credentialed alternative first), key with two scopes; with and without an authorizer), '
          'instrumented authenticators / authorizer / consumers and a counting body reader. Requests: 9 method+path shapes (matching, unknown path, '
          'wrong method, trailing slash, doubled slash, dot segment, escaped id) x 6 queries x Content-Type {absent, json, text/plain, with '
          'parameters, upper case, not consumed, wildcard, malformed, two lines} x Accept {absent, exact, ranges with q, unsatisfiable, two lines} x '
          'per-scheme credentials {absent, principal, accepted with nil principal, 401, 403, plain error} x authorizer verdict {allow, 403, 401, '
          'plain error} x body {none, JSON, text, undecodable, 300 bytes}. Programs: random sequences of 1-12 accessor calls (RouteInfo, ContentType, '
          'ResponseFormat with one of up to 3 offer lists, Authorize, BindAndValidate, ResetAuth), threading the returned request; in 1 case of 4 a '
-         'third of the calls is applied to a STALE request value (held 1-4 calls earlier). EXHAUSTIVE on every run: all sequences of the six '
-         'accessors up to length 3 on 3 fixed requests (thorough: up to length 4 on 7 requests). Observed per call: returned-request identity '
+         'third of the calls is applied to a STALE request value (held 1-4 calls earlier); 1 case in 5 is a HISTORY case: an operation with security '
+         '(3 in 8 the optional-authentication DELETE, 2 in 8 the anonymous-first POST), per scheme credentials right / wrong (401, 403, plain error) / '
+         'absent / accepted with nil principal, and one of 18 shapes in which a stage is evaluated again on a value holding no result of it '
+         '(Authorize(fail) -> Authorize; Authorize(ok) -> ResetAuth -> Authorize; the same on stale values; ContentType / ResponseFormat / '
+         'BindAndValidate after a failed or stale evaluation, after the body was consumed), other calls strewn in. EXHAUSTIVE on every run: all sequences of the six '
+         'accessors up to length 3 on 5 fixed requests, two of them on the optional-authentication operation with wrong and with right credentials '
+         '(thorough: up to length 4 on 11 requests). Observed per call: returned-request identity '
          '(same/new/nil) for the implicit RouteInfo and for the accessor, MatchedRoute object identity with operation id and params, result (content '
          'type / format / principal / error code / sorted validation codes + bound values), the ordered effect log (router lookups, authenticator '
          'calls by scheme, authorizer calls, consumer calls with byte counts), bytes read from the body, and the view through MatchedRouteFrom / '
          'SecurityPrincipalFrom / SecurityScopesFrom / route.Consumer / route.Authenticator. The model is instantiated with what the stage functions '
          '(router lookup, runtime.ContentType, NegotiateContentType, the authenticators, validateContentType via BindValidRequest, route.Consumers, '
-         'route.Binder.Bind on an intact and on a drained body) return on fresh copies of the request. Stream R (1 case in 400; tier race: all '
+         'route.Binder.Bind on an intact and on a drained body) return on fresh copies of the request; the Spec judges the REAL trace against the '
+         'same stage functions: promises kept, and every result not covered by a promise equal to the reference `fresh` (route+params, content type, '
+         'format, principal/error code and scopes, binding outcome for the unread rest of the body). Stream R (1 case in 400; tier race: all '
          'cases, in the -race build): 2-64 mixed requests, each with its own correlation token in path, query, header, body and credentials: first '
          'each request ALONE against a middleware.Serve handler of its own, then all of them from n goroutines released together (each request '
          'twice) against ONE handler built the same way, at GOMAXPROCS 1/2/4/8/16; status, content type, body (producer name, operation, every bound '
